@@ -5,6 +5,8 @@ use log::{trace, warn};
 use proptest_derive::Arbitrary;
 
 mod signals;
+#[cfg(feature = "verif-hooks")]
+mod verif_hooks;
 
 use super::{
     AluInput, AluOutput, Bus, Instruction, InstructionRegister, MicroprogramRam, Register,
@@ -15,6 +17,8 @@ use crate::{
     parser::{Programsize, Stacksize},
 };
 pub use signals::Signals;
+#[cfg(feature = "verif-hooks")]
+pub use verif_hooks::VerifSnapshot;
 
 /// A marker for an Interrupt.
 #[derive(Debug, Clone, PartialEq, Eq, PartialOrd, Ord, Hash)]
